@@ -676,6 +676,11 @@ func (g *gen) builtin(st *State, instr ssa.Instruction, b *ssa.Builtin, cc *ssa.
 	args := g.argVals(cc)
 	lbl := g.lbl(instr.Pos(), "call", cc.String())
 	switch b.Name() {
+	case "append", "copy", "delete":
+		// contracts may guard these by name (e.g. what is appended to a result list)
+		g.checkCallGuards(st, b.Name(), lbl, args)
+	}
+	switch b.Name() {
 	case "len":
 		a := args[0]
 		switch a.T.Underlying().(type) {
@@ -982,6 +987,9 @@ func (g *gen) bindLoopVars(env *SpecEnv, li *loopInfo, phis []*ssa.Phi) {
 // condition may mention parameters (entry state), local variables visible at
 // the call and lastresult(F).
 func (g *gen) checkCallGuards(st *State, callee string, lbl string, args []*Val) {
+	if g.lastArgs != nil {
+		g.lastArgs[callee] = args
+	}
 	if g.con == nil || g.dry > 0 {
 		return
 	}
